@@ -29,7 +29,8 @@ TOL = 1e-10
 def plan(tier):
     return {"shards": 16, "timeout": 900 if tier == "quick" else 4 * 3600,
             "required_monitors": ["normal-vector-basis", "letter-basis", "triple-basis", "top-side-oracle",
-                                  "vectorbasis-input", "extreme-class", "top-side-sequences"]}
+                                  "vectorbasis-input", "extreme-class", "top-side-sequences"],
+            "required_tags": ["top-side-origin-omitted"]}
 
 
 def cases(ctx):
@@ -281,9 +282,14 @@ def _disc(case, ctx, res, osy, get_direction):
     res.digest_src = {"disc": case["i"]}
     res.sample = {"direction": which, "cells": n, "inside_sphere": int(inside.sum()), "units": [pu, vu, mu],
                   "dx_given": give_dx, "origin": origin.tolist(), "L_hat": Lhat.tolist()}
+    # an origin at zero may also be left out altogether
+    okw = {"origin": o_vec}
+    if not np.any(origin) and case["i"] % 2 == 0:
+        okw = {}
+        res.tag("top-side-origin-omitted")
     with quiet(), np.errstate(all="ignore"):
-        o = attempt(get_direction, which, data=dg, origin=o_vec, **kw)
-    label = f"direction {which!r} ({n} cells, {int(inside.sum())} inside R={R:.3g} {pu})"
+        o = attempt(get_direction, which, data=dg, **okw, **kw)
+    label = f"direction {which!r} ({n} cells, {int(inside.sum())} inside R={R:.3g} {pu}{'' if okw else ', origin omitted'})"
     if not o.ok or o.value is None:
         res.violate("direction-rejected", f"{label}: {o.describe()}", tb=o.tb)
         return
